@@ -26,6 +26,7 @@ RULE = (
     " Delimited text uses the default tab or an explicit sep (, ; |) via from_path / CSVFileReader / CSVFileWriter; an unrelated reader (writer) with another delimiter is created and used while the one under test is alive."
     " Half of the delimited files write numbers the short way (%.17g: 2 instead of 2.0)."
     " 30% of the writer cases run a second initialise / append / finalise session on the same writer object."
+    " 40% of the remaining writer cases also use the one-shot write() of a mask-selected / re-ordered frame, read back whole and in chunks."
 )
 ASSUMPTIONS = [
     "strings are plain tokens (no NA-like / numeric-looking text: type inference of delimited text is outside the statement)",
@@ -310,6 +311,15 @@ def run_writers(case):
                     feed()
                     w.finalize()
                 first = w.get_associated_reader().read()
+                if one_shot:
+                    # the writer's one-shot write() of a whole frame - as callers hand it over: rows selected by a mask
+                    # or re-ordered keep their old index labels, which are no part of the table
+                    sel = df.iloc[one_shot_order]
+                    w2 = td.TabularDataWriter.from_suffix(Path(d) / f"shot{suffix}", list(df.columns), column_types=_np_types(df), **kw)
+                    w2.write(sel)
+                    shot = w2.get_associated_reader()
+                    return first, None, (sel.reset_index(drop=True), shot.read(), list(shot.get_chunked_data_iterator(chunk_size=max(1, len(sel) // 2 or 1))),
+                                         shot.get_column_names())
                 if second_session:
                     # the same writer object used for a second initialise / append / finalise session: the file then
                     # holds exactly the rows of that session
@@ -317,17 +327,33 @@ def run_writers(case):
                     feed()
                     w.finalize()
                     second = w.get_associated_reader().read()
-                    return first, second
-                return first, None
+                    return first, second, None
+                return first, None, None
             second_session = bool(rng.random() < 0.3)
             extra["second_session"] = second_session
+            one_shot = bool(not second_session and n >= 2 and rng.random() < 0.4)
+            one_shot_order = np.sort(rng.choice(n, size=max(1, n // 2), replace=False))[::int(rng.choice([1, -1]))] if one_shot else None
+            extra["one_shot_write"] = one_shot
             c = core.Call(go)
             evals += 1
             if not c.ok:
                 res.violate("crash", c.sig + f"/{suffix}/{btype.value}", msg=c.info["msg"], **extra)
                 continue
-            back, again = c.value
+            back, again, shot = c.value
             back = back.reset_index(drop=True)
+            if shot is not None:
+                res.count("one_shot_writes")
+                want, whole, chunks, names = shot
+                bad3 = None
+                if names != list(df.columns):
+                    bad3 = f"column names {names} != {list(df.columns)}"
+                elif frame_diff(whole, want, check_index=True):
+                    bad3 = "whole read: " + str(frame_diff(whole, want, check_index=True))
+                elif chunks and frame_diff(pd.concat(chunks), want, check_index=True):
+                    bad3 = "chunked read: " + str(frame_diff(pd.concat(chunks), want, check_index=True))
+                if bad3:
+                    res.violate("write_readback", f"{suffix}/one_shot_write", diff=bad3, **extra)
+                    continue
             if again is not None:
                 res.count("second_sessions")
                 again = again.reset_index(drop=True)
